@@ -395,7 +395,7 @@ fn rejects_weighted<const N: usize>() {
 // AdjacencyMatrix, real std, arbitrary 3-vertex start + 3 ops incl. toggle.
 // @verif prop=C01 tier=quick fl=f0 role=history/matrix t=600 mem=10
 #[cfg_attr(kani, kani::proof)]
-#[cfg_attr(kani, kani::unwind(5))]
+#[cfg_attr(kani, kani::unwind(8))]
 pub fn c01_history_matrix_n3_k3() {
     history_fixed::<AdjacencyMatrix, 3, 3>();
 }
@@ -410,35 +410,35 @@ pub fn c01_history_matrix_n8_k2() {
 
 // @verif prop=C01 tier=quick fl=f0 role=rejects/matrix t=600 mem=10 expect=panic
 #[cfg_attr(kani, kani::proof)]
-#[cfg_attr(kani, kani::unwind(5))]
+#[cfg_attr(kani, kani::unwind(8))]
 pub fn c01_rejects_matrix_n3() {
     rejects_fixed::<AdjacencyMatrix, 3>();
 }
 
 // @verif prop=C01 tier=quick fl=f1 role=history/edge-list t=600 mem=10
 #[cfg_attr(kani, kani::proof)]
-#[cfg_attr(kani, kani::unwind(5))]
+#[cfg_attr(kani, kani::unwind(8))]
 pub fn c01_history_edge_list_n3_k3() {
     history_fixed::<EdgeList, 3, 3>();
 }
 
 // @verif prop=C01 tier=quick fl=f1 role=rejects/edge-list t=600 mem=10 expect=panic
 #[cfg_attr(kani, kani::proof)]
-#[cfg_attr(kani, kani::unwind(5))]
+#[cfg_attr(kani, kani::unwind(8))]
 pub fn c01_rejects_edge_list_n3() {
     rejects_fixed::<EdgeList, 3>();
 }
 
 // @verif prop=C01 tier=quick fl=f1 role=history/adjacency-list t=900 mem=12
 #[cfg_attr(kani, kani::proof)]
-#[cfg_attr(kani, kani::unwind(5))]
+#[cfg_attr(kani, kani::unwind(8))]
 pub fn c01_history_adjacency_list_n3_k3() {
     history_fixed::<AdjacencyList, 3, 3>();
 }
 
 // @verif prop=C01 tier=quick fl=f1 role=rejects/adjacency-list t=600 mem=10 expect=panic
 #[cfg_attr(kani, kani::proof)]
-#[cfg_attr(kani, kani::unwind(5))]
+#[cfg_attr(kani, kani::unwind(8))]
 pub fn c01_rejects_adjacency_list_n3() {
     rejects_fixed::<AdjacencyList, 3>();
 }
@@ -474,21 +474,21 @@ pub fn c01_rejects_weighted_n3() {
 
 // @verif prop=C01 tier=thorough fl=f1 role=history/edge-list t=3600 mem=24
 #[cfg_attr(kani, kani::proof)]
-#[cfg_attr(kani, kani::unwind(6))]
+#[cfg_attr(kani, kani::unwind(8))]
 pub fn c01_history_edge_list_n4_k4() {
     history_fixed::<EdgeList, 4, 4>();
 }
 
 // @verif prop=C01 tier=thorough fl=f1 role=history/adjacency-list t=3600 mem=24
 #[cfg_attr(kani, kani::proof)]
-#[cfg_attr(kani, kani::unwind(6))]
+#[cfg_attr(kani, kani::unwind(8))]
 pub fn c01_history_adjacency_list_n4_k3() {
     history_fixed::<AdjacencyList, 4, 3>();
 }
 
 // @verif prop=C01 tier=thorough fl=f0 role=history/matrix t=3600 mem=24
 #[cfg_attr(kani, kani::proof)]
-#[cfg_attr(kani, kani::unwind(6))]
+#[cfg_attr(kani, kani::unwind(8))]
 pub fn c01_history_matrix_n4_k4() {
     history_fixed::<AdjacencyMatrix, 4, 4>();
 }
